@@ -27,7 +27,9 @@ MANIFEST = dict(
          "remaining weight exceeds half the total for all earlier positions and not for k, or, when the position is computed in closed form "
          "(cumsum, or the running difference total - cumsum spelled subtract.accumulate, + searchsorted / argmax / where / count over the weights in sorted order), is the first position whose running weight is >= "
          "half the total by the abstract meaning of these primitives; the summary helper wires "
-         "min/max/mean/deviation/error from these routines in the right roles with the right keywords.",
+         "min/max/mean/deviation/error from these routines in the right roles with the right keywords, and on every path on which nsig/niter "
+         "can be among the caller's keywords each reported statistic is taken from a sigma_clip call on the data that is given the caller's weights "
+         "(reductions / wmom components over the whole array there are a violation).",
     note="Not decided: numerical values, behaviour for zero total weight, more than 3 (clipping) / 4 (median) passes of a loop (the paths are "
          "structurally uniform). Trusted: numpy reductions (sum/mean/std/min/max), searchsorted, argsort, where, sympy normaliser.",
     technique="static analysis: abstract interpretation over a symbolic term domain (reductions as uninterpreted functionals), bounded symbolic "
@@ -45,7 +47,10 @@ SEMANTIC = ('R18.clip', 'R18.cov', 'R18.wmom',
             # outside the vocabulary is "not recognised"), and by data flow from the public parameters to conversion calls
             'R18.interp::interplin::formula', 'R18.interp::interplin::two-sided-index-clamp', 'R18.interp::interplin::inputs-keep-their-values',
             # decided on every path of the term-domain execution / on the abstract meaning of the library search primitives
-            'R18.wmed', 'R18.stats::get_stats::plain-definitions')
+            'R18.wmed', 'R18.stats::get_stats::plain-definitions',
+            # decided on every path of the term-domain execution: the reported terms are positively read as reductions over the whole
+            # array (closed vocabulary, no selection) / the delegated clipping call is positively read as not given the weights
+            'R18.stats::get_stats::clipping-honoured')
 
 
 def run(chk):
@@ -1644,6 +1649,14 @@ class _PX:
                     if isinstance(other, _Opq):
                         raise _NoRec("identity test on an uninterpreted value")
                     r = other is None
+                    if other == NONE_:
+                        r = True
+                    elif isinstance(other, sp.Basic) and any(_head(g) == "GET" and (len(g.args) < 3 or g.args[2] == NONE_)
+                                                             for g in other.atoms(sp.core.function.AppliedUndef)) and _head(other) in ("GET", "ITE"):
+                        # a value looked up in the caller's keywords may be None (absent with default None, or passed as None):
+                        # the test is a condition of the path, not a decided fact
+                        r = _F("ISNONE")(other)
+                        return r if isinstance(op, ast.Is) else NOTF(r)
                 else:
                     r = a is b
                 return r if isinstance(op, ast.Is) else not r
@@ -2737,6 +2750,14 @@ def summary(chk, repo):
     try:
         if not kwname or "weights" not in pos:
             raise _NoRec("the public parameters weights / **kw")
+        # the clipping routine's own signature: its data parameter, and whether leaving `weights` out means "no weights"
+        cfi = repo.func(ST + "sigma_clip")
+        cpos = [p for p in cfi.params if not p.startswith("*")]
+        clip_data = cpos[0] if cpos else None
+        ca = cfi.node.args
+        cdef = dict(zip([a.arg for a in (ca.posonlyargs + ca.args)][-len(ca.defaults):] if ca.defaults else [], ca.defaults))
+        cdef.update({a.arg: d for a, d in zip(ca.kwonlyargs, ca.kw_defaults) if d is not None})
+        clip_unweighted_default = isinstance(cdef.get("weights"), ast.Constant) and cdef["weights"].value is None
         for w in (None, W):
             init = {pos[0]: A, "weights": w, kwname[0]: _Kw(base=KW)}
             for p in pos[1:]:
@@ -2764,6 +2785,8 @@ def summary(chk, repo):
                 strip = [t.args[0] if (_head(t) == "IDX" and t.args[1] == 0) else t for t in trip]
                 scal = all(_head(t) == "IDX" and t.args[1] == 0 for t in trip)
                 heads = {_head(t.args[0]) if _head(t) == "ITEM" else "" for t in strip}
+                self_ok, self_why = _clipping_honoured(trip, st.cons, clip, asked, A, w, KW, clip_q, wmom_q, clip_data)
+                agg.put("get_stats::clipping-honoured", self_ok, lambda: self_why)
                 if clip is None:
                     agg.put("get_stats::clipped-roles", None, lambda: "whether clipping was requested is not read from %s" % str(st.cons)[:200])
                     continue
@@ -2773,7 +2796,8 @@ def summary(chk, repo):
                     if ok:
                         c = trip[0].args[0]
                         kw = _kwterms(c)
-                        agg.put("get_stats::options-set[get_err]", _kw_effective(c, "get_err") == ("explicit", TRUE_) and kw.get("arrin") == A and kw.get("weights") == _t(w)
+                        agg.put("get_stats::options-set[get_err]", _kw_effective(c, "get_err") == ("explicit", TRUE_) and kw.get("arrin") == A
+                                and (kw.get("weights") == _t(w) or (w is None and "weights" not in kw and clip_unweighted_default))
                                 and _kw_effective(c, "get_indices") in (("caller",), ("absent",), ("explicit", FALSE_)), lambda: "call %s" % str(c)[:300])
                 elif w is not None:
                     ok = heads == {wmom_q} and len({t.args[0] for t in strip}) == 1 and [int(t.args[1]) for t in strip] == [0, 2, 1]
@@ -2810,6 +2834,7 @@ def summary(chk, repo):
         norec = str(ex)
     texts = [("get_stats::min-max", "min and max are those of the data (over rows)"),
              ("get_stats::clipped-roles", "with nsig/niter: sigma_clip(arr, weights=weights, get_err=True, **kw) read as (mean, deviation, error)"),
+             ("get_stats::clipping-honoured", "whenever nsig/niter can be among the caller's keywords, each of mean/std/err is taken from a sigma_clip call on the data that is given the caller's weights"),
              ("get_stats::weighted-roles", "with weights: wmom(arr, weights, **kw) read as (mean, error, deviation)"),
              ("get_stats::options-set[get_err]", "get_err is switched on for the delegated sigma_clip call, which gets the data, the weights and the caller's keywords"),
              ("get_stats::options-set[sdev]", "sdev is switched on for the delegated wmom call, which gets the data (as N-by-1 when 1-d), the weights and the caller's keywords"),
@@ -2821,6 +2846,66 @@ def summary(chk, repo):
         if norec:
             ok, why = None, norec
         chk.ob("R18.stats", key, ok, fi.where(), "%s (%d paths)%s" % (text, n, (": " + why) if why else ""))
+
+
+def _clipping_honoured(trip, cons, clip, asked, A, w, KW, clip_q, wmom_q, clip_data):
+    """(ok, why) for one path of the summary helper: when the caller's keywords can hold nsig (or are known to hold nsig / niter)
+    on this path, every one of the reported mean / deviation / error is taken from the result of a sigma_clip call on the data
+    that is given the caller's weights.  ok=False only when the reported terms are positively read as statistics of the whole
+    array (a closed vocabulary of reductions / wmom components over the data with no selection anywhere) or when the clipping
+    call is positively read as not receiving the weights; None when something is not read; True also when the path excludes clipping."""
+    if clip is False:
+        return True, ""
+    if clip is None:
+        # the path says nothing that decides the request: it is a path of a clipping request only if every constraint on it is
+        # read, none of them excludes 'nsig' from the caller's keywords, and the keywords are constrained by membership tests alone
+        if asked.get("'nsig'") is False:
+            return None, "the path excludes nsig but does not decide niter: %s" % str(cons)[:160]
+        for t, truth in cons:
+            if not isinstance(t, sp.Basic) or _opaque_term(t):
+                return None, "a test on the path is not read: %s" % str(t)[:120]
+            if KW in t.free_symbols:
+                for x, tr in _flat_cons(t, truth):
+                    if not (_head(x) == "IN" and x.args[1] == KW and x.args[0] != KW):
+                        return None, "a test on the caller's keywords is not a membership test: %s" % str(x)[:120]
+            elif not t.free_symbols <= ({A, TRUE_, FALSE_, NONE_} | ({w} if w is not None else set())):
+                return None, "a test on the path is not about the data or the weights: %s" % str(t)[:120]
+    when = "with nsig/niter among the caller's keywords" if clip else "on a path taken whether or not nsig is among the caller's keywords"
+    when += " and weights given" if w is not None else ""
+    plain = {"ITEM", "IDX", "MEAN", "STD", "VAR", "DIM", "SIZE", "NDIM", "IDXN", "KWREST", wmom_q}
+    verdicts = []
+    for nm_, t in zip(("mean", "std", "err"), trip):
+        if not isinstance(t, sp.Basic):
+            return None, "`%s` is %r" % (nm_, t)
+        apps = t.atoms(sp.core.function.AppliedUndef)
+        calls = [a for a in apps if _head(a) == clip_q]
+        if not calls:
+            heads = {_head(a) for a in apps}
+            closed = all(h in plain or h.startswith(("KW_", "KWDEFAULT_")) for h in heads)
+            closed = closed and all(a.args[1].is_Integer for a in apps if _head(a) in ("IDX", "ITEM", "DIM"))
+            closed = closed and not any(str(x).startswith(("TEST<", "OPAQUE<")) for x in t.free_symbols) and A in t.free_symbols
+            if not closed:
+                return None, "%s `%s` is not read: %s" % (when, nm_, str(t)[:160])
+            verdicts.append((False, "%s `%s` is a statistic of the whole array, not taken from a sigma_clip result: %s" % (when, nm_, str(t)[:200])))
+            continue
+        for c in calls:
+            kw = _kwterms(c)
+            if clip_data is None or kw.get(clip_data) != A:
+                return None, "%s the data given to sigma_clip is not read: %s" % (when, str(c)[:160])
+            if w is None:
+                continue
+            eff = _kw_effective(c, "weights")
+            if eff == ("explicit", w):
+                continue
+            if eff in (("absent",), ("caller",), ("explicit", NONE_)):
+                # `weights` is a named parameter of the summary helper, so the caller's **kw cannot carry it
+                verdicts.append((False, "%s `%s` comes from a sigma_clip call that is not given the caller's weights: %s" % (when, nm_, str(c)[:200])))
+            else:
+                return None, "%s the weights given to sigma_clip are not read: %s" % (when, str(c)[:160])
+    for ok, why in verdicts:
+        if ok is False:
+            return False, why
+    return True, ""
 
 
 def _flat_cons(t, truth):
